@@ -12,6 +12,27 @@ From Verif Require Import Base.Prim Base.Str Cbor.Codec Suit.Py Suit.Ty Suit.Int
 Open Scope Z_scope.
 Local Notation "x |> g" := (g x) (at level 70, only parsing).
 
+(* boolean form of the normality of Python objects (Suit/PyFacts.v normal): every item the specification assigns is checked to be
+   a normal one (lengths and integers below 2^64, valid UTF-8, pairwise different map keys, no bignum tags) — otherwise the
+   specification side declines (fail closed) *)
+Fixpoint keys_distinctb (l : list (cbor * cbor)) : bool :=
+  match l with
+  | [] => true
+  | (k, _) :: r => forallb (fun kv => negb (py_eqb (fst kv) k)) r && keys_distinctb r
+  end.
+Fixpoint normalb (c : cbor) : bool :=
+  match c with
+  | CUint n | CNint n => (0 <=? n) && (n <? 18446744073709551616)
+  | CBytes b => blen b <? 18446744073709551616
+  | CText b => (blen b <? 18446744073709551616) && utf8_valid b
+  | CArray l => (blen l <? 18446744073709551616) && (fix all (l : list cbor) := match l with [] => true | x :: r => normalb x && all r end) l
+  | CMap l => (blen l <? 18446744073709551616) && keys_distinctb l
+              && (fix all (l : list (cbor * cbor)) := match l with [] => true | (k, v) :: r => normalb k && normalb v && all r end) l
+  | CMapI _ => false
+  | CTag t c => (0 <=? t) && (t <? 18446744073709551616) && negb (t =? 2) && negb (t =? 3) && normalb c
+  | CSimple v => (0 <=? v) && (v <? 24)
+  end.
+
 Section Spec.
   Variable env : list (bytes * ty).
   Variable json_loads : bytes -> res cbor.
@@ -27,23 +48,22 @@ Section Spec.
   Definition flatten_group (z : cbor) : res (list cbor) :=
     match z with CArray l => Ok l | _ => Raise TypeError end.
 
-  Definition spec_body (rec : ty -> cbor -> res cbor) (t : ty) (d : cbor) : res cbor :=
+  (* the member is `bstr .cbor header_map / h''` (a protected header that may be empty) *)
+  Definition hmo_of (t : ty) : bool :=
+    match t with TRef n => match lookup n env with Some (TUnionHMO _) => true | _ => false end | _ => false end.
+
+  Definition spec_core (rec : ty -> cbor -> res cbor) (t : ty) (d : cbor) : res cbor :=
     if is_special t then special t d else
     match t with
     | TRef n => match lookup n env with Some t' => rec t' d | None => Raise Unsupported end
-    | TCbstr (TRef n) =>
-        match lookup n env with
-        | Some TEmptyBstr => match d with CText [] => Ok (CBytes []) | _ => Raise ValueError end
-        | Some (TUnionHMO _) =>
-            (* protected header of a recipient: the empty byte string, or bstr .cbor header map *)
-            match d with
-            | CMap [] | CText [] | CBytes [] => Ok (CBytes [])
-            | _ => let* c := rec (TRef (s2b "SuitHeaderMap")) d in Ok (CBytes (ser c))
-            end
-        | Some t' => let* c := rec t' d in Ok (CBytes (ser c))
-        | None => Raise Unsupported
-        end
-    | TCbstr t' => let* c := rec t' d in Ok (CBytes (ser c))
+    | TCbstr t' =>
+        if hmo_of t' then
+          (* protected header of a recipient: the empty byte string, or bstr .cbor header map *)
+          match d with
+          | CMap [] | CText [] | CBytes [] => Ok (CBytes [])
+          | _ => let* c := rec (TRef (s2b "SuitHeaderMap")) d in Ok (CBytes (ser c))
+          end
+        else let* c := rec t' d in Ok (CBytes (ser c))
     | TAny => Ok d
     | TInt => if check_int d then Ok d else Raise ValueError
     | TUint => if check_uint d then Ok d else Raise ValueError
@@ -51,11 +71,14 @@ Section Spec.
     | TNull => if is_none d then Ok d else Raise ValueError
     | TTstr => if is_none d || is_str d then Ok d else Raise ValueError
     | TBstr | THex => match d with CText s => match unhex s with Some b => Ok (CBytes b) | None => Raise ValueError end | _ => Raise ValueError end
-    | TEmptyBstr => Raise ValueError           (* only occurs under bstr .cbor, handled above *)
+    | TEmptyBstr =>                            (* no item of its own: it only occurs as the empty alternative of a protected header *)
+        match d with CText s => match unhex s with Some _ => Raise Unsupported | None => Raise ValueError end | _ => Raise ValueError end
     | TBchar => match d with
+                | CSimple 22 => Raise Unsupported
                 | CText s => if utf8_len s =? 1 then Ok (CBytes s) else Raise ValueError
                 | _ => Raise ValueError end
     | TEnum tbl =>
+        if is_none d then Raise Unsupported else
         match find_idx (fun e => py_eqb (CText (fst e)) d) tbl O with
         | Some (_, e) => Ok (cint (snd e))
         | None => Raise ValueError
@@ -155,7 +178,8 @@ Section Spec.
                    let* rest := go r in Ok (cs ++ rest)
                end) items
             |> (fun r => let* cs := r in Ok (CArray cs))
-        | _ => Raise ValueError
+        | CMap _ | CText _ | CBytes _ => Raise Unsupported      (* Python would iterate over keys / characters / bytes *)
+        | _ => Raise TypeError
         end
     | TList None _ => Raise Unsupported
     | TBitfield bt _ =>
@@ -177,6 +201,9 @@ Section Spec.
         end
     | _ => Raise Unsupported
     end.
+
+  Definition spec_body (rec : ty -> cbor -> res cbor) (t : ty) (d : cbor) : res cbor :=
+    let* c := spec_core rec t d in if normalb c then Ok c else Raise Unsupported.
 
   Fixpoint spec_item (fuel : nat) (t : ty) (d : cbor) {struct fuel} : res cbor :=
     match fuel with O => Raise RecursionLimit | S f => spec_body (fun t' d' => spec_item f t' d') t d end.
